@@ -96,6 +96,23 @@ class Variant:
             return self.index == other.index and self.val == other.val
         return False
 
+    def __hash__(self) -> int:
+        return hash((self.index, self.val))
+
+
+def _hashable(value: object) -> object:
+    """The form in which a decoded value can be a set element or a mapping
+    key: a sequence as a tuple, a set as a frozenset (at any depth)."""
+
+    # Exact types: an Offset is a (named) tuple too and stays what it is.
+    if type(value) in (list, tuple):
+        return tuple(_hashable(v) for v in value)  # type: ignore
+    if type(value) in (set, frozenset):
+        return frozenset(_hashable(v) for v in value)  # type: ignore
+    if isinstance(value, Variant):
+        return Variant(value.index, _hashable(value.val))
+    return value
+
 
 class Codec:
     """The base class for codecs."""
@@ -162,7 +179,7 @@ class MappingCodec(Codec):
         for _ in range(mapping_len):
             key = serialization._decode_tree(raw_bytes, key_type, get_by_uuid)
             val = serialization._decode_tree(raw_bytes, val_type, get_by_uuid)
-            mapping[key] = val
+            mapping[_hashable(key)] = val
         return mapping
 
     @staticmethod
@@ -284,7 +301,9 @@ class SetCodec(Codec):
         set_len = Uint64Codec.decode(raw_bytes)
         for _ in range(set_len):
             decoded_set.add(
-                serialization._decode_tree(raw_bytes, subtype, get_by_uuid)
+                _hashable(
+                    serialization._decode_tree(raw_bytes, subtype, get_by_uuid)
+                )
             )
         return decoded_set
 
